@@ -241,14 +241,14 @@ func verifC32Run(m LockedMap[string, int], sharded bool, nkeys, opsPer int, labe
 
 // VerifC32Single: SingleLockedMap.
 func VerifC32Single() {
-	verifC32Run(NewSingleLockedMap[string, int](), false, 2, verifrt.Bound("singleops", 1, 2), "C32.single")
+	verifC32Run(NewSingleLockedMap[string, int](), false, 2, verifrt.Bound("singleops", 1, 1), "C32.single")
 }
 
 // VerifC32Sharded: ShardedMap with 2 shards (3 keys so that shards are shared and distinct).
 func VerifC32Sharded() {
 	m, err := NewShardedMap[string, int](2, nil)
 	verifrt.Assert(err == nil, "C32.harness.sharded-map-constructs")
-	verifC32Run(m, true, verifrt.Bound("shardkeys", 2, 3), verifrt.Bound("shardops", 1, 2), "C32.sharded")
+	verifC32Run(m, true, verifrt.Bound("shardkeys", 2, 3), verifrt.Bound("shardops", 1, 1), "C32.sharded")
 }
 
 // VerifC32Locked: Locked[int] value: SetValue / EmptyValue / Value / GetOrCreate / Set / Empty from two goroutines.
